@@ -74,6 +74,10 @@ structure Src (α : Type) where
   /-- group metadata: key ↦ (data_type, payload); `[]` stands for `None` -/
   ogmd : List (String × String × String) := []
   sgmd : List (String × String × String) := []
+  /-- header values the table object itself carries (`Table(..., generated_by=…, create_date=…)`, or
+  left behind by a previous load).  `to_hdf5` does not read them: the file gets the ARGUMENTS. -/
+  ownGeneratedBy : Option String := none
+  ownCreateDate : Option String := none
   deriving Repr, DecidableEq
 
 def Src.ids (t : Src α) : Axis → List Id
@@ -581,7 +585,8 @@ def asSrc (j : Json) : R (Src Rat) := do
          rows := (← listF (asList asRat) j "rows"),
          omd := (← optF (asList asMdE) j "omd"), smd := (← optF (asList asMdE) j "smd"),
          ttype := (← optF asStr j "type"), tableId := (← optF asStr j "table_id"),
-         ogmd := (← listF asGmd j "ogmd"), sgmd := (← listF asGmd j "sgmd") }
+         ogmd := (← listF asGmd j "ogmd"), sgmd := (← listF asGmd j "sgmd"),
+         ownGeneratedBy := (← optF asStr j "own_generated_by"), ownCreateDate := (← optF asStr j "own_create_date") }
 
 def asKind (s : String) : Kind :=
   match s with
